@@ -148,6 +148,13 @@ async fn raw_echo(addr: SocketAddr, certs: &Certs, topic: &str) -> Result<(RawCo
 // recovery scenarios (hook)
 // ---------------------------------------------------------------------------------------
 async fn publisher_recovers(addr: SocketAddr, certs: &Certs, bo: BackoffStrategy, outages: usize, msgs_before: usize, id: u64) -> std::result::Result<u64, V> {
+    publisher_recovers_t(addr, certs, bo, outages, msgs_before, id, None).await
+}
+
+/// `caller_timeout_ms`: the application wraps every send() after the cut in a timeout shorter than the backoff delay
+/// and simply tries the next item when it fires (each abandoned send() future is dropped in the middle of the
+/// reconnect); the stream must still come back
+async fn publisher_recovers_t(addr: SocketAddr, certs: &Certs, bo: BackoffStrategy, outages: usize, msgs_before: usize, id: u64, caller_timeout_ms: Option<u64>) -> std::result::Result<u64, V> {
     let inc = |e: String| V("INCONCLUSIVE".into(), e);
     let topic = format!("/c12pub/top{}", id);
     let cs = lib_client(&addr.to_string(), certs, None).await.map_err(|e| inc(e.to_string()))?;
@@ -205,9 +212,28 @@ async fn publisher_recovers(addr: SocketAddr, certs: &Certs, bo: BackoffStrategy
         cp.verif_close_connection().await;
         // the first send after the cut may lose its item; it must come back Ok once the stream is re-established
         let mut first_ok = false;
-        for attempt in 0..3 {
+        let t_cut = Instant::now();
+        for attempt in 0..(if caller_timeout_ms.is_some() { 100_000 } else { 3 }) {
             seq += 1;
             let item = format!("cut-{}-{}", o, seq);
+            if let Some(t) = caller_timeout_ms {
+                if t_cut.elapsed() > Duration::from_secs(30) {
+                    return Err(V("publisher/not-recovered/impatient-caller".into(), format!("outage #{}: for 30 s after the cut every send() wrapped in a {} ms timeout timed out ({} tries) although the server was reachable", o + 1, t, attempt)));
+                }
+                match tokio::time::timeout(Duration::from_millis(t), publ.send(item)).await {
+                    Ok(Ok(())) => {
+                        first_ok = true;
+                        break;
+                    }
+                    Ok(Err(e)) => {
+                        return Err(V(
+                            if is_too_many(&e) { "publisher/gave-up-although-server-reachable/impatient-caller".into() } else { "publisher/error-after-cut/impatient-caller".into() },
+                            format!("outage #{} (of {}): send #{} after the cut (each wrapped in a {} ms timeout) failed with {:?} although the server was reachable all the time", o + 1, outages, attempt + 1, t, e.to_string()),
+                        ))
+                    }
+                    Err(_) => continue,
+                }
+            }
             match tokio::time::timeout(Duration::from_secs(30), publ.send(item)).await {
                 Ok(Ok(())) => {
                     first_ok = true;
@@ -1402,6 +1428,16 @@ pub fn run(rep: &mut StageReport, tier: &str, _seed: u64) {
                 Err(_) => Err(V("INCONCLUSIVE".into(), "watchdog: shared-client scenario did not finish in 400 s".into())),
             };
             out.push(("recovery/subscribers-sharing-a-client".to_string(), cfg, r));
+        }
+        // publisher whose caller wraps each send() in a timeout shorter than the backoff delay
+        {
+            let bo = BackoffStrategy::constant().with_max_attempts(3).with_step(Duration::from_millis(400));
+            let cfg = json!({"role": "publisher", "backoff": "constant 400 ms", "max_attempts": 3, "caller_timeout_per_send_ms": 60, "outages": 2});
+            let r = match tokio::time::timeout(Duration::from_secs(400), publisher_recovers_t(server.addr, &certs.0, bo, 2, 1, 78, Some(60))).await {
+                Ok(r) => r,
+                Err(_) => Err(V("INCONCLUSIVE".into(), "watchdog: scenario did not finish in 400 s".into())),
+            };
+            out.push(("recovery/publisher-impatient-caller".to_string(), cfg, r));
         }
         // publisher with batching + compression across outages
         for k in 0..(if thorough { 4u64 } else { 2 }) {
